@@ -986,8 +986,8 @@ class Node:
                     if res.and_self is False:
                         # Add the node itself if user explicitly returned
                         # `SkipBranch(and_self=False)`
-                        p = _create_parents()
-                        p.add_child(n)
+                        # (`n` is on the parent stack, so this creates it)
+                        _create_parents()
                 elif isinstance(res, StopTraversal):
                     raise res
                 elif isinstance(res, SelectBranch):
